@@ -592,6 +592,16 @@ def permuted(case, rnd):
     rnd.shuffle(f['messages'])
     for m in f['messages']:
         rnd.shuffle(m['fields'])
+        # the order of the oneof declarations follows the order of the oneof blocks in the proto source
+        n = len(m.get('oneofs') or [])
+        if n > 1:
+            perm = list(range(n))
+            rnd.shuffle(perm)            # new position i holds old oneof perm[i]
+            m['oneofs'] = [m['oneofs'][j] for j in perm]
+            inv = {old: new for new, old in enumerate(perm)}
+            for fl in m['fields']:
+                if fl.get('oneof', -1) >= 0:
+                    fl['oneof'] = inv[fl['oneof']]
     return c
 
 
